@@ -90,3 +90,71 @@ Proof.
   destruct (udp_reopen_gets_a_fresh_forwarder cx s v4 w f Hf Hlt) as (D & _).
   cbn [forward]. rewrite Hh, D. reflexivity.
 Qed.
+
+(* ---------- the same for a TCP socket whose connection is already gone ---------- *)
+Lemma sinks_set_tcp w s t : w_sinks (set_tcp w s t) = w_sinks w /\ w_next_sink (set_tcp w s t) = w_next_sink w.
+Proof. destruct w; split; reflexivity. Qed.
+Lemma sinks_unbind_tcp w s e : w_sinks (unbind_tcp w s e) = w_sinks w /\ w_next_sink (unbind_tcp w s e) = w_next_sink w.
+Proof. unfold unbind_tcp. destruct (reg_find _ _) as [s'|]; [destruct (s' =? s)|]; destruct w; split; reflexivity. Qed.
+
+Lemma tcp_cancel_frame s w :
+  let w' := fst (tcp_cancel s w) in
+  w_sinks w' = w_sinks w /\ w_next_sink w' = w_next_sink w /\ t_fwd (get_tcp w' s) = t_fwd (get_tcp w s).
+Proof.
+  cbv zeta. unfold tcp_cancel, tcp_abort_recv, tcp_abort_send. cbn [fst].
+  repeat match goal with |- context [set_tcp ?a s ?t] =>
+    let A := fresh "A" in let B := fresh "B" in destruct (sinks_set_tcp a s t) as [A B]; rewrite ?A, ?B; clear A B end.
+  rewrite !get_set_tcp. split; [reflexivity|]. split; [reflexivity|]. destruct (get_tcp w s); reflexivity.
+Qed.
+
+Theorem tcp_close_detaches_for_good cx s w f :
+  t_chan (get_tcp w s) = None -> t_fwd (get_tcp w s) = Some f ->
+  let w1 := fst (tcp_close cx s w) in
+  mget SNone (w_sinks w1) f = SFwd None /\ w_next_sink w1 = w_next_sink w /\ t_fwd (get_tcp w1 s) = None.
+Proof.
+  intros Hc Hf. cbv zeta. unfold tcp_close. rewrite Hc, Hf.
+  set (w0 := if ep_eqb _ _ then w else _).
+  assert (w_sinks w0 = w_sinks w /\ w_next_sink w0 = w_next_sink w) as [S0 N0]
+    by (unfold w0; destruct (ep_eqb _ _); [split; reflexivity|apply sinks_unbind_tcp]).
+  set (t1 := if d6_close_clears (cv cx) then _ else _).
+  assert (t_fwd t1 = None) as T1 by (unfold t1; destruct (d6_close_clears (cv cx)); destruct (get_tcp w s); reflexivity).
+  set (wa := set_tcp (reset_fwd w0 (Some f)) s t1).
+  destruct (sinks_set_tcp (reset_fwd w0 (Some f)) s t1) as [Sa Na]. fold wa in Sa, Na.
+  destruct (tcp_cancel_frame s wa) as (S1 & N1 & F1).
+  destruct (tcp_cancel s wa) as [wb c1]. cbn [fst] in *.
+  split; [|split].
+  - rewrite S1, Sa. apply close_detaches_forwarder.
+  - rewrite N1, Na. unfold reset_fwd, set_sink. destruct w0; simpl in *. exact N0.
+  - rewrite F1. unfold wa. rewrite get_set_tcp. exact T1.
+Qed.
+
+Theorem tcp_reopen_gets_a_fresh_forwarder cx s v4 w f :
+  t_chan (get_tcp w s) = None -> t_fwd (get_tcp w s) = Some f -> f < w_next_sink w ->
+  let w2 := fst (tcp_open cx s v4 w) in
+  mget SNone (w_sinks w2) f = SFwd None /\
+  t_fwd (get_tcp w2 s) = Some (w_next_sink w) /\
+  mget SNone (w_sinks w2) (w_next_sink w) = SFwd (Some (OTcp s)) /\
+  w_next_sink w <> f.
+Proof.
+  intros Hc Hf Hlt. cbv zeta. unfold tcp_open.
+  destruct (tcp_close_detaches_for_good cx s w f Hc Hf) as (D & N & _).
+  destruct (tcp_close cx s w) as [w1 c]. cbn [fst] in D, N.
+  unfold new_fwd. cbn [fst]. rewrite N.
+  match goal with |- context [set_tcp ?a s ?u] => destruct (sinks_set_tcp a s u) as [A _]; rewrite A, get_set_tcp end.
+  split; [|split; [|split]].
+  - unfold set_sink. destruct w1; simpl in *. rewrite mget_mset_neq by lia. exact D.
+  - match goal with |- t_fwd (?x <| t_open := _ |> <| t_is_v4 := _ |> <| t_fwd := ?y |>) = _ => destruct x; reflexivity end.
+  - unfold set_sink. destruct w1; simpl. apply mget_mset_eq.
+  - lia.
+Qed.
+
+(* a straggler of the previous connection, routed to the old forwarder, vanishes at the re-used socket *)
+Corollary straggler_vanishes_after_tcp_reopen cx s v4 w f v now fuel p :
+  t_chan (get_tcp w s) = None -> t_fwd (get_tcp w s) = Some f -> f < w_next_sink w -> p_hops p = [f] ->
+  let w2 := fst (tcp_open cx s v4 w) in
+  forward v (S fuel) now p w2 = (w2, []).
+Proof.
+  intros Hc Hf Hlt Hh. cbv zeta.
+  destruct (tcp_reopen_gets_a_fresh_forwarder cx s v4 w f Hc Hf Hlt) as (D & _).
+  cbn [forward]. rewrite Hh, D. reflexivity.
+Qed.
